@@ -33,7 +33,9 @@ func (s *sink) all() []byte { return bytes.Join(s.chunks, nil) }
 func TestPropBufWriter(t *testing.T) {
 	rec := ev.Get("bufwriter")
 	rapid.Check(t, func(t *rapid.T) {
-		size := rapid.SampledFrom([]int{1, 2, 3, 5, 8, 16, 17, 64, 4096}).Draw(t, "bufsize")
+		size := rapid.SampledFrom([]int{1, 2, 3, 5, 8, 16, 17, 64, 100, 128, 4096}).Draw(t, "bufsize")
+		_, restore := h.DrawLogLevel(t)
+		defer restore()
 		sk := &sink{}
 		w := dest.NewWriter(sk, size, "c05w")
 		var want bytes.Buffer
